@@ -566,8 +566,15 @@ fn gen_c08(seed: u64) -> Plan {
     ];
     if b.rng.chance(1, 3) {
         // a shallow reorg during the sync: the writes of the fork rollback are crash points too
+        let noticed = b.rng.chance(1, 2);
+        if noticed {
+            // the new tip is more than last-n ahead of the old one, so the request starts at the
+            // old tip, the peer sends a reorg section and the client really rolls back
+            b.plan.knobs.last_n = pick(&mut b.rng, &[1u64, 2, 3]);
+            b.plan.chain.max_txs = b.plan.chain.max_txs.max(2);
+        }
         let back = b.rng.range(1, b.plan.knobs.last_n.min(6).max(1));
-        let n = back + b.rng.range(1, 3);
+        let n = if noticed { back + b.plan.knobs.last_n + b.rng.range(1, 3) } else { back + b.rng.range(1, 3) };
         if b.plan.knobs.check_point_interval <= 2 * back + 2 {
             b.plan.knobs.check_point_interval = 2000;
         }
